@@ -501,7 +501,8 @@ theorem encodeUrl_pre_sub (e : Env) (s : Str) (u : Url) (h : encodeUrl e s = .ok
       have := hraw c hc
       cases np.port <;> simp [this]
     · cases hnp
-      obtain ⟨h1, h2, h3⟩ := makeNetloc_sub (q e Gen.QUOTER) (requoteOpt e np.user) (requoteOpt e np.password)
+      obtain ⟨h1, h2, h3⟩ := makeNetloc_sub (q e Gen.QUOTER)
+        ((requoteOpt e np.user).bind (fun s => if s.isEmpty then none else some s)) (requoteOpt e np.password)
         host np.port
       refine ⟨h2, h3, ?_⟩
       intro x hx c hc
